@@ -239,13 +239,6 @@ def run(ctx):
     from spectrum import aryule, lpc, pyule
     rng = ctx.rng
     ctx.check_theorems('Properties/C12.v')
-    # vlib.parse_assumptions only sees axioms whose type starts on the same line; the two instances at
-    # Coquelicot's C depend on all three standard-library axioms of the reals (see Properties/C12.v output)
-    REALS = ['ClassicalDedekindReals.sig_forall_dec', 'ClassicalDedekindReals.sig_not_dec',
-             'FunctionalExtensionality.functional_extensionality_dep']
-    ctx.obligations = [(n, ok, sorted(set(ax) | set(REALS)) if (ok and ax and n in ('aryule_stable_complex', 'aryule_stable_C')) else ax)
-                       for (n, ok, ax) in ctx.obligations]
-
     # ---------------- correspondence: aryule (+ pyule attributes)
     cases = []; meta = []
     n = ctx.q(220, 2500); tries = 0
